@@ -179,6 +179,8 @@ def main() -> None:
                 info["deps"][mid] = [[d, st.priorities.get(d, -1)] for d in st.dependencies]
                 info.setdefault("paths", {})[mid] = st.path
                 info.setdefault("suppressed", {})[mid] = sorted(st.suppressed)
+                info.setdefault("suppressed_pri", {})[mid] = [[d, st.priorities.get(d, -1)] for d in st.suppressed]
+                info.setdefault("ancestors", {})[mid] = list(st.ancestors or [])
             top = getattr(man, "top_order", None)
             by_id = getattr(man, "scc_by_id", None)
             if top is not None and by_id is not None:
@@ -194,6 +196,15 @@ def main() -> None:
         try:    # modules that start this run without a usable cache entry (meta missing or abandoned)
             if "nometa" not in info:
                 info["nometa"] = sorted(i for i, st in g.items() if st.meta is None)
+                # the cached lists load_graph followed for modules with a usable entry (user modules only)
+                mv = {}
+                for i, st in g.items():
+                    if st.meta is None or not st.path or "typeshed" in st.path:
+                        continue
+                    mv[i] = {"deps": [[d, st.priorities.get(d, -1)] for d in st.meta.dependencies],
+                             "supp": [[d, st.priorities.get(d, -1)] for d in st.meta.suppressed]}
+                info["meta_view"] = mv
+                info["roots"] = [bs.module for bs in a[0]] if a else None
         except Exception as e:
             info["observe_error"] = repr(e)
         return g
